@@ -60,6 +60,40 @@ CURATED = [
     ('two_gaps', ['beq x8 x0 L2', G(0), 'L1:', 'j L2', G(1), 'L2:', 'j L1']),
 ]
 
+# ---------------------------------------------------------------------------
+# adjacency family: every kind of item in front of a label that sits directly on every kind
+# of shrinking item; the label is referenced by a jump and a data word, a second label lies
+# behind a symbolic gap (so call / tail / branches to it are near or far)
+# ---------------------------------------------------------------------------
+PREFIX = {
+    'f4': [F4], 'fc': [FC], 'liK': ['li x5 K0'], 'li5': ['li x5 5'], 'liL': ['li x6 L2'],
+    'call2': ['call L2'], 'tail2': ['tail L2'], 'al8': ['align 8'], 'dw': ['dw 7'], 'dh_al': ['dh 1', 'align 4'],
+    'brc2': ['beq x8 x0 L2'], 'j2': ['j L2'], 'hi2': ['lui x5 %hi(L2)'], 'mv': ['mv x8 x9'], 'none': [],
+}
+SHRINKER = {
+    'li7': ['li x6 7'], 'call1': ['call L1'], 'tail1': ['tail L1'], 'fc': [FC], 'mv': ['mv x8 x9'],
+    'al4': ['align 4'], 'ret': ['ret'], 'f4': [F4], 'brc1': ['bnez x8 L1'],
+}
+
+
+def adjacency():
+    out = []
+    for pn, pl in PREFIX.items():
+        for sn, sl in SHRINKER.items():
+            lines = pl + ['L1:'] + sl + ['j L1', 'dw L1', G(0), 'L2:', F4]
+            out.append(('adj_%s_%s' % (pn, sn), lines))
+    return out
+
+
+CURATED += [
+    ('fc_label_bwd_br', [FC, 'L1:', G(0), 'bnez x8 L1']),
+    ('fc_fc_label_bwd_j', [FC, FC, 'L1:', G(0), 'j L1']),
+    ('mv_label_bwd_br', ['mv x8 x9', 'L1:', G(0), 'beq x8 x0 L1', 'jal L1']),
+    ('label_before_align', ['dw L1', 'dh 1', 'L1:', 'align 4', FC, 'j L1']),
+    ('label_before_align_aligned', ['dw L1', 'L1:', 'align 8', F4, 'beq x8 x0 L1']),
+    ('label_between_aligns', ['dh 1', 'align 4', 'L1:', 'align 8', 'L2:', 'dw L1', 'dw L2']),
+]
+
 SLOTS_FWD = {
     'f4': [F4], 'fc': [FC], 'liK': ['li x5 K0'], 'liL': ['li x6 LT'], 'brc': ['beq x8 x0 LT'],
     'brn': ['blt x5 x6 LT'], 'j': ['j LT'], 'jal': ['jal LT'], 'call': ['call LT'], 'tail': ['tail LT'],
